@@ -331,6 +331,11 @@ func genHist(r *core.Rand, tier string) core.Case {
 			case 3: // unchanged (a legitimate cache hit)
 			}
 		}
+		if r.Chance(45) {
+			// a call that must be REJECTED, made with the key the buffer holds now, before the
+			// next valid call: a failed call must leave nothing behind (no half-updated memo)
+			lines = append(lines, genRejected(r, key))
+		}
 		decKey := key
 		if r.Chance(30) && len(prev) == len(key) {
 			decKey = prev // message made under the key the buffer held before
@@ -352,6 +357,84 @@ func genHist(r *core.Rand, tier string) core.Case {
 		}
 	}
 	return core.Case{Lines: lines, Tag: "history"}
+}
+
+// rejectedKinds: every way a call can be turned down, per helper
+var rejectedKinds = []string{"gcmenc-nonce0", "gcmdec-nonce0", "gcmdec-short", "gcmdec-badtag", "gcmdec-badad",
+	"cbcdec-badlen", "cbcdec-empty", "cbcdec-badpad", "cbcenc-badkey", "cbcdec-badkey", "gcmenc-badkey", "gcmdec-badkey"}
+
+func mkRejected(kind string, key, iv, nonce, pt []byte, lay string) string {
+	badKey := key[:len(key)-1]
+	blk, _ := aes.NewCipher(key)
+	g, _ := cipher.NewGCM(blk)
+	sealed := g.Seal(nil, nonce, pt, []byte("ad"))
+	switch kind {
+	case "gcmenc-nonce0":
+		return fmt.Sprintf("gcmenc %s %s - 6164 %s", lay, hx(key), hx(pt))
+	case "gcmdec-nonce0":
+		return fmt.Sprintf("gcmdec %s %s - 6164 %s", lay, hx(key), hx(sealed))
+	case "gcmdec-short":
+		return fmt.Sprintf("gcmdec %s %s %s 6164 %s", lay, hx(key), hx(nonce), hx(sealed[:len(sealed)%16]))
+	case "gcmdec-badtag":
+		x := append([]byte{}, sealed...)
+		x[len(x)-1] ^= 1
+		return fmt.Sprintf("gcmdec %s %s %s 6164 %s", lay, hx(key), hx(nonce), hx(x))
+	case "gcmdec-badad":
+		return fmt.Sprintf("gcmdec %s %s %s 6165 %s", lay, hx(key), hx(nonce), hx(sealed))
+	case "cbcdec-badlen":
+		return fmt.Sprintf("cbcdec %s %s %s %s", lay, hx(key), hx(iv), hx(rawCBC(key, iv, stdPad16(pt))[:15+len(pt)/16*16]))
+	case "cbcdec-empty":
+		return fmt.Sprintf("cbcdec %s %s %s -", lay, hx(key), hx(iv))
+	case "cbcdec-badpad":
+		p := stdPad16(pt)
+		p[len(p)-1] = 0
+		return fmt.Sprintf("cbcdec %s %s %s %s", lay, hx(key), hx(iv), hx(rawCBC(key, iv, p)))
+	case "cbcenc-badkey":
+		return fmt.Sprintf("cbcenc %s %s %s %s", lay, hx(badKey), hx(iv), hx(pt))
+	case "cbcdec-badkey":
+		return fmt.Sprintf("cbcdec %s %s %s %s", lay, hx(badKey), hx(iv), hx(rawCBC(key, iv, stdPad16(pt))))
+	case "gcmenc-badkey":
+		return fmt.Sprintf("gcmenc %s %s %s 6164 %s", lay, hx(badKey), hx(nonce), hx(pt))
+	}
+	return fmt.Sprintf("gcmdec %s %s %s 6164 %s", lay, hx(badKey), hx(nonce), hx(sealed))
+}
+
+func genRejected(r *core.Rand, key []byte) string {
+	return mkRejected(rejectedKinds[r.Intn(len(rejectedKinds))], key, r.Bytes(16), r.Bytes(12), r.Bytes(genLen(r)), layout(r))
+}
+
+// ---------- arena stream: all arguments of a call are windows of one arena (impl, header `arena`)
+
+// genArena: 1-6 valid or near-valid calls in the documented layouts; where each argument sits in
+// the arena is derived by impl from the text of the line (both orders of dst and src, adjacent or
+// apart, spare capacity or not), so the stream only has to vary the lines.
+func genArena(r *core.Rand, tier string) core.Case {
+	lines := []string{"@ C08 arena"}
+	n := r.Range(1, 6)
+	for i := 0; i < n; i++ {
+		key := genKey(r, 97)
+		iv, nonce, ad := r.Bytes(16), r.Bytes(12), genAD(r)
+		if len(ad) > 64 {
+			ad = ad[:64]
+		}
+		pt := r.Bytes(genLen(r))
+		lay := layout(r)
+		switch r.Pick(30, 25, 20, 20, 5) {
+		case 0:
+			lines = append(lines, fmt.Sprintf("cbcenc %s %s %s %s", lay, hx(key), hx(iv), hx(pt)))
+		case 1:
+			lines = append(lines, fmt.Sprintf("cbcdec %s %s %s %s", lay, hx(key), hx(iv), hx(rawCBC(key, iv, genNearValidPadded(r, 16, 4)))))
+		case 2:
+			lines = append(lines, fmt.Sprintf("gcmenc %s %s %s %s %s", lay, hx(key), hx(nonce), hx(ad), hx(pt)))
+		case 3:
+			lines = append(lines, genGCMDec(r))
+		case 4:
+			if len(key) == 16 || len(key) == 24 || len(key) == 32 {
+				lines = append(lines, genRejected(r, key))
+			}
+		}
+	}
+	return core.Case{Lines: lines, Tag: "arena"}
 }
 
 // ---------- magnitude / large stream
@@ -398,6 +481,8 @@ func gen(r *core.Rand, tier string) core.Case {
 	switch {
 	case r.Chance(12):
 		return genHist(r, tier)
+	case r.Chance(12):
+		return genArena(r, tier)
 	case r.Chance(4) || (tier == "thorough" && r.Chance(8)):
 		return genLarge(r, tier)
 	}
@@ -592,6 +677,35 @@ func corpus() []core.Case {
 					mkH("gcmdec", k2, k1, 5), mkH("cbcdec", k3, k2, 16), mkH(a, k3, k3, 0)}, Tag: "history"})
 			}
 		}
+	}
+	// AFTER A FAILURE, enumerated: a valid call under key 1, then a call with key 2 (buffer
+	// overwritten in place) that must be rejected, then valid calls under key 2 — for every key
+	// size, every kind of rejection and every helper that follows
+	for ki, ks := range []int{16, 24, 32} {
+		k1, k2 := seqBytes(ks, 0x21), seqBytes(ks, 0xa1)
+		for ri, rk := range rejectedKinds {
+			lay := []string{"fresh", "inplace"}[(ki+ri)%2]
+			cs = append(cs, core.Case{Lines: []string{"@ C08 hist",
+				mkH(hOps[ri%4], k1, k1, 18), mkRejected(rk, k2, iv, nonce12, seqBytes(21, 0x51), lay),
+				mkH("gcmenc", k2, k2, 7), mkH("gcmdec", k2, k2, 30), mkH("cbcenc", k2, k2, 16), mkH("cbcdec", k2, k2, 1),
+				mkRejected(rk, k1, iv, nonce12, seqBytes(3, 0x52), lay), mkH("gcmdec", k1, k1, 9), mkH("gcmdec", k1, k2, 9)}, Tag: "history"})
+		}
+	}
+	// ARENA LAYOUTS, enumerated: each helper, both documented layouts, plaintext lengths around a
+	// block, repeated so that the line text (hence the placement impl derives from it) varies:
+	// 40 different iv/nonce values per shape
+	for v := 0; v < 40; v++ {
+		ivv, nn := seqBytes(16, byte(v)), seqBytes(12, byte(v))
+		ls = nil
+		for _, n := range []int{0, 5, 16, 31, 64} {
+			pt := seqBytes(n, 0x61)
+			lay := []string{"fresh", "fresh", "inplace"}[(v+n)%3]
+			ls = append(ls, fmt.Sprintf("cbcenc %s %s %s %s", lay, hx(key), hx(ivv), hx(pt)),
+				fmt.Sprintf("cbcdec %s %s %s %s", lay, hx(key), hx(ivv), hx(rawCBC(key, ivv, stdPad16(pt)))),
+				fmt.Sprintf("gcmenc %s %s %s 6164 %s", lay, hx(key), hx(nn), hx(pt)),
+				mkH("gcmdec", key, key, n))
+		}
+		cs = append(cs, core.Case{Lines: append([]string{"@ C08 arena"}, ls...), Tag: "arena"})
 	}
 	// MAGNITUDES, enumerated: every key length 0..70, every nonce length 0..40, every AD length
 	// 0..100, plaintext lengths at every block boundary up to 208, every PKCS#7 block size 1..255
